@@ -2,11 +2,22 @@
 # usage: tools/mutation_test.sh <patch.diff> <Cxx> [<Cyy> ...]
 # Runs the quick checks against a scratch copy of /repo with the patch applied, from a scratch copy of the
 # framework (so regenerated Gen/*.v do not disturb /verif). Prints each check's verdict; removes the copies.
+# Timestamps are preserved (cp -a) so that only what the patch changes is rebuilt, and at most 4 scratch runs
+# proceed at a time on this machine (slots under /tmp/verif_slots) - many concurrent full rebuilds exhaust memory.
 set -u
 patch=$(readlink -f "$1"); shift
 tag=mt_$$
 R=/tmp/${tag}_repo; V=/tmp/${tag}_verif
-cp -r /repo $R && cp -r ${VERIF_SRC:-/verif} $V || exit 2
+mkdir -p /tmp/verif_slots
+exec 9>/dev/null
+while :; do
+  for s in 0 1 2 3; do
+    exec 9>/tmp/verif_slots/slot$s
+    if flock -n 9; then break 2; fi
+  done
+  sleep $((5 + RANDOM % 10))
+done
+cp -a /repo $R && cp -a ${VERIF_SRC:-/verif} $V || exit 2
 rm -rf $V/build/.lock
 ( cd $R && git apply "$patch" ) || { echo "PATCH-DOES-NOT-APPLY"; rm -rf $R $V; exit 2; }
 for id in "$@"; do
